@@ -22,6 +22,16 @@ def generate(rng, tier):
     o = gen.Opts(p_vftable=0.5, p_index=0.3, p_enum=0.3, p_base=0.3, p_gap=0.4, p_explicit_addr=0.3, p_backend=0.1,
                  p_extern_val=0.1, max_modules=2, max_items=5, max_fields=5, p_size_attr=0.3)
     cases = std_worlds(rng, n, o)
+    # a module that imports a user type called like a built-in (`use compat::u8;`): gaps are BYTES whatever `u8` denotes there,
+    # so the gap <-> address rewrites must still be silent
+    for i in range(max(4, n // 25)):
+        nm = rng.choice(['u8', 'u8', 'u16', 'u32'])
+        compat = modent(path('compat'), module(defs=[type_def(True, nm, [], [field(True, 'raw', ty_id('u16'))])]))
+        g1, g2 = rng.choice([2, 4, 6]), rng.choice([2, 4])
+        flds = [field(True, 'a', ty_id('i16')), field(False, '_', ty_unk(g1)), field(True, 'b', ty_id('i16')),
+                field(False, '_', ty_unk(g2)), field(True, 'c', ty_arr(ty_id('i16'), 2))]
+        net = modent(path('net'), module(uses=[path('compat', nm)], defs=[type_def(True, 'Packet', [a_int('align', 2)], flds)]))
+        cases.append(case('shadowgap%d' % i, rng.choice([4, 8]), [compat, net] if i % 2 else [net, compat]))
     for c in cases:
         c.append([S('rwseed'), rng.randrange(1 << 30)])
     return cases
